@@ -43,9 +43,9 @@ theorem Sim.openRound {l : List WsIn} (e : EP) (r : OpenReq) : Sim x j l e l (op
         by_cases hx : fid = x
         · subst hx
           refine Sim.one (AStep.draw (view fid j e l) (rng'.count fid) rng'.isEmpty (.requested r.req)
-            (.frame (.connect fid e.opts.rwnd r.port r.host)) hc1 hc2 (hc3 rfl) hfree hoc' (by intro i h; cases h)
-            rfl (by simp [isPush])) ?_ rfl rfl
-          simp [view, EP.enqFrame, EP.enq, hoc', lookup_insert_self, canAcc, canAccF, hfree]
+            (.frame (.connect fid e.opts.rwnd r.port r.host)) hc1 hc2 (hc3 rfl) hfree hoc'
+            (Or.inl ⟨r.req, rfl, by simp [isConn]⟩)) ?_ rfl rfl
+          simp [view, EP.enqFrame, EP.enq, hoc', lookup_insert_self, canAcc, canAccF, hfree, bindHeld]
         · have g1 : Sim x j l e l { e with rng := rng', fallback := fb' } [] [] := Sim.rngStep e _ rng' hc1 hc2 rfl
           have g2 : Sim x j l { e with rng := rng', fallback := fb' } l
               { e with rng := rng', fallback := fb', flows := Mux.insert e.flows fid (.requested r.req),
@@ -60,7 +60,9 @@ theorem Sim.openRejected {l : List WsIn} (e : EP) (req : Nat) (final : Bool) :
   repeat' split
   all_goals sim_same
 
-theorem Sim.closeLocal {l : List WsIn} (e : EP) (s : Slot) (fid : Nat) (inh final : Bool) :
+/-- `close_flow_local` on an already removed slot; if object `j` is accepting, the slot is not `j`'s. -/
+theorem Sim.closeLocal {l : List WsIn} (e : EP) (s : Slot) (fid : Nat) (inh final : Bool)
+    (hk : canAcc x j e = true → s ≠ .established j) :
     Sim x j l e l (closeLocal e s fid inh final).1 (closeLocal e s fid inh final).2 [] := by
   unfold Mux.closeLocal
   cases s with
@@ -70,30 +72,77 @@ theorem Sim.closeLocal {l : List WsIn} (e : EP) (s : Slot) (fid : Nat) (inh fina
     | none => exact Sim.refl l e
     | some o =>
       simp only
-      have g := Sim.modObj (x := x) (j := j) (l := l) e i (fun o => { o.disallowWrite with senderAlive := false })
-        (by sim_side) (by sim_side)
+      have g := Sim.modObjG (x := x) (j := j) (l := l) e i (fun o => { o.disallowWrite with senderAlive := false })
+        (by sim_side) (by intro o; refine ⟨(by intro h; cases h), ?_, ?_⟩ <;> simp only [Obj.disallowWrite, Obj.wake] <;> (try split) <;> simp_all)
+        (by intro hc hij; subst hij; exact absurd rfl (hk hc))
       split
       · exact g.tr (Sim.enqFrame _ _ rfl rfl rfl)
       · exact g
   | requested req => exact Sim.openRejected e req final
   | bindRequested req => sim_same
 
-theorem Sim.closeFlow {l : List WsIn} (e : EP) (fid : Nat) (inh : Bool) :
+theorem canAcc_erase (e : EP) (fid : Nat) (h : canAcc x j { e with flows := Mux.erase e.flows fid } = true) :
+    fid ≠ x ∧ lookup e.flows x = some (.established j) := by
+  unfold canAcc canAccF at h
+  by_cases hx : x = fid
+  · subst hx; simp [lookup_erase_self] at h
+  · simp only [lookup_erase_ne _ _ _ hx] at h
+    refine ⟨Ne.symm hx, ?_⟩
+    cases hl : lookup e.flows x with
+    | none => rw [hl] at h; simp at h
+    | some s =>
+      rw [hl] at h
+      cases s with
+      | requested r => simp at h
+      | bindRequested r => simp at h
+      | established k =>
+        simp only [Bool.and_eq_true, beq_iff_eq] at h
+        rw [h.1]
+
+theorem Sim.closeFlow {l : List WsIn} (e : EP) (fid : Nat) (inh : Bool) (hsf : SF e) (hj : J x j e) :
     Sim x j l e l (closeFlow e fid inh).1 (closeFlow e fid inh).2 [] := by
   unfold Mux.closeFlow
   split
   · exact Sim.refl l e
-  · exact (Sim.erase e fid).tr0 (Sim.closeLocal _ _ _ _ _)
+  · rename_i s hl
+    refine (Sim.erase e fid).tr0 (Sim.closeLocal _ _ _ _ _ ?_)
+    intro hc hs
+    subst hs
+    obtain ⟨hne, _⟩ := canAcc_erase e fid hc
+    exact hne (hsf.noForeign hj fid hl)
+
+/-- Only the held bind requests changed, and none with id `x` was added. -/
+theorem Sim.bhDrop {l : List WsIn} (e e' : EP) (hv : view x j e' l = { view x j e l with bh := bindHeld x e' })
+    (hb : bindHeld x e' = true → bindHeld x e = true) : Sim x j l e l e' [] [] := by
+  refine Sim.one (AStep.degrade (view x j e l) (lookup e.flows x) (canAcc x j e)
+    (e.objs.countP (fun o => o.fid == x && !o.finishSent)) (bindHeld x e') (rxOpenJ j e.objs) (Or.inl rfl)
+    (fun h => ⟨h, rfl⟩) (fun h _ _ => h) (Nat.le_refl _) hb (fun h => h)) ?_ rfl rfl
+  rw [hv]; rfl
 
 theorem Sim.offerAccept {l : List WsIn} (e : EP) (i : Nat) : Sim x j l e l (offerAccept e i) [] [] := by
-  unfold Mux.offerAccept; split <;> sim_same
+  unfold Mux.offerAccept
+  split
+  · sim_same
+  · refine Sim.bhDrop e _ rfl ?_
+    simp only [bindHeld, Bool.or_false]
+    intro h; rw [h]; rfl
 
-theorem Sim.offerBind {l : List WsIn} (e : EP) (b : BindIn) : Sim x j l e l (offerBind e b) [] [] := by
-  unfold Mux.offerBind; split <;> sim_same
+/-- A bind request of another id is queued or parked. -/
+theorem Sim.offerBind {l : List WsIn} (e : EP) (b : BindIn) (hb : b.fid ≠ x) : Sim x j l e l (offerBind e b) [] [] := by
+  have hbx : (b.fid == x) = false := by simp [hb]
+  unfold Mux.offerBind
+  split
+  · refine Sim.bhDrop e _ rfl ?_
+    simp only [bindHeld, List.any_append, List.any_cons, hbx, List.any_nil, Bool.or_false]
+    exact fun h => h
+  · refine Sim.bhDrop e _ rfl ?_
+    simp only [bindHeld, hbx, Bool.or_false]
+    intro h; rw [h]; rfl
 
 /-- An item that is not a `Connect x`, `Acknowledge x`, `Push x` is taken from the source. -/
 theorem Sim.pop {l : List WsIn} (e : EP) (w : WsIn)
-    (hw : ∀ m, w = .msg m → isConn x m = false ∧ isAck x m = false ∧ isPush x m = false) (hend : isEnd w = false) :
+    (hw : ∀ m, w = .msg m → isConn x m = false ∧ isAck x m = false ∧ isPush x m = false ∧ isFin x m = false ∧
+      isBind x m = false) (hend : isEnd w = false) :
     Sim x j (w :: l) e l e [] [] := by
   refine Sim.one (AStep.pop (view x j e (w :: l)) w l rfl hw) ?_ rfl rfl
   simp [view, hend]
@@ -123,11 +172,44 @@ theorem SF.lt {e : EP} (hsf : SF e) (y i : Nat) (h : lookup e.flows y = some (.e
   obtain ⟨o', ho', _⟩ := hsf y i h
   exact (List.getElem?_eq_some_iff.mp ho').1
 
-theorem Sim.newOther {l : List WsIn} (e : EP) (fid : Nat) (o : Obj) (hsf : SF e) (hx : fid ≠ x) (hf : o.fid = fid) :
+theorem rxOpenJ_append_ne (objs : List Obj) (o : Obj) (h : j ≠ objs.length) : rxOpenJ j (objs ++ [o]) = rxOpenJ j objs := by
+  unfold rxOpenJ
+  by_cases hlt : j < objs.length
+  · rw [List.getElem?_append_left hlt]
+  · have h1 : objs[j]? = none := List.getElem?_eq_none (by omega)
+    have h2 : (objs ++ [o])[j]? = none := List.getElem?_eq_none (by simp; omega)
+    rw [h1, h2]
+
+theorem rxOpenJ_append_new (objs : List Obj) (o : Obj) (ho : o.rxOpen = true) :
+    rxOpenJ j (objs ++ [o]) = (rxOpenJ j objs || objs.length == j) := by
+  by_cases h : j = objs.length
+  · subst h; simp [rxOpenJ, ho]
+  · rw [rxOpenJ_append_ne objs o h]
+    have : (objs.length == j) = false := by simp; omega
+    simp [this]
+
+/-- An object carrying another id is not object `j`. -/
+theorem J.ne_at {e' : EP} (hj : J x j e') {n fid : Nat} (h : ∃ o, e'.objs[n]? = some o ∧ o.fid = fid) (hx : fid ≠ x) :
+    j ≠ n := by
+  intro hjn
+  obtain ⟨o, ho, hf⟩ := h
+  subst hjn
+  exact hx (hf ▸ hj o ho)
+
+/-- The new object (index `len`) of another flow is not object `j`. -/
+theorem J.ne_len {e : EP} {fl : List (Nat × Slot)} {o : Obj} {fid : Nat}
+    (hj : J x j { e with objs := e.objs ++ [o], flows := fl }) (hf : o.fid = fid) (hx : fid ≠ x) : j ≠ e.objs.length := by
+  intro h
+  have := hj o (by subst h; simp)
+  exact hx (hf ▸ this)
+
+theorem Sim.newOther {l : List WsIn} (e : EP) (fid : Nat) (o : Obj) (hsf : SF e) (hx : fid ≠ x) (hf : o.fid = fid)
+    (hjl : j ≠ e.objs.length) :
     Sim x j l e l { e with objs := e.objs ++ [o], flows := Mux.insert e.flows fid (.established e.objs.length) } [] [] := by
   refine Sim.one (AStep.grow (view x j e l) (e.objs.length + 1) (Nat.le_succ _)) ?_ rfl rfl
   have hne : (o.fid == x) = false := by simp [hf, hx]
-  simp [view, canAcc, canAccF_newOther e.flows e.objs fid o (hsf.lt x) hx, lookup_insert_ne _ _ _ _ (Ne.symm hx), List.countP_append, hne]
+  simp [view, canAcc, canAccF_newOther e.flows e.objs fid o (hsf.lt x) hx, lookup_insert_ne _ _ _ _ (Ne.symm hx),
+    List.countP_append, hne, bindHeld, rxOpenJ_append_ne e.objs o hjl]
 
 @[simp] theorem newObj_fid (o : Opts) (fid r : Nat) (h : Bytes) (p : Nat) : (newObj o fid r h p).fid = fid := rfl
 
@@ -139,14 +221,44 @@ theorem canAccF_newSelf (fl : List (Nat × Slot)) (objs : List Obj) (o : Obj) (h
   · subst h; simp [ha, hr]
   · simp [h]
 
+theorem countP_modify_eq (objs : List Obj) (i : Nat) (f : Obj → Obj) (p : Obj → Bool) (hp : ∀ o, p (f o) = p o) :
+    (objs.modify i f).countP p = objs.countP p := by
+  induction objs generalizing i with
+  | nil => simp
+  | cons o r ih =>
+    cases i with
+    | zero =>
+      have e1 : (o :: r).modify 0 f = f o :: r := by simp
+      rw [e1, List.countP_cons, List.countP_cons, hp]
+    | succ n =>
+      have e1 : (o :: r).modify (n+1) f = o :: r.modify n f := by simp
+      rw [e1, List.countP_cons, List.countP_cons, ih n]
+
+theorem finsOf_closeFlowEnds_ne (e : EP) (fid : Nat) (c : EndCause) (hc : c ≠ .peerFinish x) :
+    finsOf x j (closeFlowEnds e fid c) = [] := by
+  unfold closeFlowEnds
+  split
+  · rename_i s _
+    cases s <;> simp only [slotEnds, finsOf_nil]
+    split
+    · simp [finsOf, hc]
+    · rfl
+  · rfl
+
+theorem nw_append_new (objs : List Obj) (o : Obj) (hf : o.fid = x) (hs : o.finishSent = false) :
+    (objs ++ [o]).countP (fun o => o.fid == x && !o.finishSent) = objs.countP (fun o => o.fid == x && !o.finishSent) + 1 := by
+  simp [List.countP_append, hf, hs]
+
 /-- `process_frame`: the frame is the head of the inbox before, and gone after. -/
 theorem Sim.processFrame {l : List WsIn} (e : EP) (f : Frame) (ig : Bool) (hsf : SF e)
     (hj : J x j (processFrame e f ig).1) :
-    Sim x j (.msg (.frame f) :: l) e l (processFrame e f ig).1 (processFrame e f ig).2.1 (acceptedInto e f) := by
+    SimX x j (.msg (.frame f) :: l) e l (processFrame e f ig).1 (processFrame e f ig).2.1 (acceptedInto e f)
+      (finsOf x j (processFrameEnds e f)) := by
   have hje : J x j e := hj.back (Grow.processFrame e f ig)
   cases f with
   | connect fid rwnd port host =>
-    simp only [Mux.processFrame, acceptedInto]
+    refine Sim.toX ?_
+    simp only [Mux.processFrame, acceptedInto] at hj ⊢
     by_cases hx : fid = x
     · subst hx
       split
@@ -161,27 +273,44 @@ theorem Sim.processFrame {l : List WsIn} (e : EP) (f : Frame) (ig : Bool) (hsf :
             view fid j e' l = { view fid j e (.msg (.frame (.connect fid rwnd port host)) :: l) with
               inbox := l, slot := some (.established e.objs.length), len := e.objs.length + 1,
               nobj := e.objs.countP (fun o => o.fid == fid) + 1, canJ := e.objs.length == j,
+              nw := e.objs.countP (fun o => o.fid == fid && !o.finishSent) + 1,
+              rxJ := rxOpenJ j e.objs || e.objs.length == j,
               outq := if e.outClosed then e.outq else e.outq ++ [.frame (.acknowledge fid e.opts.rwnd)] } →
             Sim fid j (.msg (.frame (.connect fid rwnd port host)) :: l) e l e' [] [] := fun e' hv =>
           Sim.one (AStep.connNew (view fid j e (_ :: l)) _ l e.opts.rwnd rfl (by simp [isConn]) hfree) hv rfl rfl
         have hcan := canAccF_newSelf (x := fid) (j := j) e.flows e.objs (newObj e.opts fid rwnd host port) rfl rfl
+        have hnw := nw_append_new (x := fid) e.objs (newObj e.opts fid rwnd host port) rfl rfl
+        have hrx := rxOpenJ_append_new (j := j) e.objs (newObj e.opts fid rwnd host port) rfl
         split
         · rename_i hoc
           refine hnew _ ?_
-          simp [view, canAcc, hcan, hoc, lookup_insert_self, List.countP_append, newObj_fid]
+          simp [view, canAcc, hcan, hnw, hrx, hoc, lookup_insert_self, List.countP_append, newObj_fid, bindHeld]
         · rename_i hoc
           simp only [Bool.not_eq_true] at hoc
           have g := hnew (EP.enqFrame { e with objs := e.objs ++ [newObj e.opts fid rwnd host port], flows := Mux.insert e.flows fid (.established e.objs.length) } (.acknowledge fid e.opts.rwnd)) (by
-            simp [view, canAcc, hcan, EP.enqFrame, EP.enq, hoc, lookup_insert_self, List.countP_append, newObj_fid])
+            simp [view, canAcc, hcan, hnw, hrx, EP.enqFrame, EP.enq, hoc, lookup_insert_self, List.countP_append, newObj_fid, bindHeld])
           split
           · exact (g.tr (Sim.modObj _ e.objs.length (fun o => { o with rxOpen := false }) (by sim_side) (by sim_side))).tr
               (Sim.same rfl rfl rfl)
           · exact g.tr (Sim.offerAccept _ _)
     · have gp : Sim x j (.msg (.frame (.connect fid rwnd port host)) :: l) e l e [] [] :=
-        Sim.pop e _ (by intro m hm; cases hm; simp [isConn, isAck, isPush, hx]) rfl
+        Sim.pop e _ (by intro m hm; cases hm; simp [isConn, isAck, isPush, isFin, isBind, hx]) rfl
       split
       · exact gp.tr (Sim.enqFrame _ _ rfl rfl rfl)
-      · have g := gp.tr (Sim.newOther e fid (newObj e.opts fid rwnd host port) hsf hx rfl)
+      · rename_i hc
+        simp only [hc, if_false] at hj
+        have hjl : j ≠ e.objs.length := by
+          refine J.ne_at hj (n := e.objs.length) (fid := fid) ?_ hx
+          split
+          · exact ⟨newObj e.opts fid rwnd host port, by simp, rfl⟩
+          · split
+            · refine ⟨{ newObj e.opts fid rwnd host port with rxOpen := false }, ?_, rfl⟩
+              simp [EP.enqFrame, EP.enq, EP.modObj, setObj]
+              split <;> simp
+            · refine ⟨newObj e.opts fid rwnd host port, ?_, rfl⟩
+              simp only [EP.enqFrame, EP.enq, Mux.offerAccept]
+              split <;> split <;> simp
+        have g := gp.tr (Sim.newOther e fid (newObj e.opts fid rwnd host port) hsf hx rfl hjl)
         split
         · exact g
         · split
@@ -190,7 +319,8 @@ theorem Sim.processFrame {l : List WsIn} (e : EP) (f : Frame) (ig : Bool) (hsf :
               (Sim.same rfl rfl rfl)
           · exact (g.tr (Sim.enqFrame _ (.acknowledge fid e.opts.rwnd) rfl (by simp [isAck, hx]) rfl)).tr (Sim.offerAccept _ _)
   | acknowledge fid n =>
-    simp only [Mux.processFrame, acceptedInto]
+    refine (Sim.toX ?_).rec rfl
+    simp only [Mux.processFrame, acceptedInto] at hj ⊢
     by_cases hx : fid = x
     · subst hx
       have gold : (∀ q, lookup e.flows fid ≠ some (.requested q)) →
@@ -201,10 +331,12 @@ theorem Sim.processFrame {l : List WsIn} (e : EP) (f : Frame) (ig : Bool) (hsf :
         exact (gold (by intro q h; rw [hl] at h; cases h)).tr (Sim.modObj _ _ _ (by sim_side) (by sim_side))
       · rename_i req hl
         have hcan := canAccF_newSelf (x := fid) (j := j) e.flows e.objs (newObj e.opts fid n [] 0) rfl rfl
+        have hnw := nw_append_new (x := fid) e.objs (newObj e.opts fid n [] 0) rfl rfl
+        have hrx := rxOpenJ_append_new (j := j) e.objs (newObj e.opts fid n [] 0) rfl
         have g : Sim fid j (.msg (.frame (.acknowledge fid n)) :: l) e l
             { e with objs := e.objs ++ [newObj e.opts fid n [] 0], flows := Mux.insert e.flows fid (.established e.objs.length) } [] [] := by
           refine Sim.one (AStep.ackNew (view fid j e (_ :: l)) _ l req rfl (by simp [isAck]) hl) ?_ rfl rfl
-          simp [view, canAcc, hcan, lookup_insert_self, List.countP_append, newObj_fid]
+          simp [view, canAcc, hcan, hnw, hrx, lookup_insert_self, List.countP_append, newObj_fid, bindHeld]
         split
         · exact g.tr (Sim.same rfl rfl rfl)
         · exact (g.tr (Sim.modObj _ e.objs.length (fun o => { o with rxOpen := false }) (by sim_side) (by sim_side))).tr
@@ -214,10 +346,18 @@ theorem Sim.processFrame {l : List WsIn} (e : EP) (f : Frame) (ig : Bool) (hsf :
       · rename_i hl
         exact (gold (by intro q h; rw [hl] at h; cases h)).tr (Sim.enqFrame _ _ rfl rfl rfl)
     · have gp : Sim x j (.msg (.frame (.acknowledge fid n)) :: l) e l e [] [] :=
-        Sim.pop e _ (by intro m hm; cases hm; simp [isConn, isAck, isPush, hx]) rfl
+        Sim.pop e _ (by intro m hm; cases hm; simp [isConn, isAck, isPush, isFin, isBind, hx]) rfl
       split
       · exact gp.tr (Sim.modObj _ _ _ (by sim_side) (by sim_side))
-      · have g := gp.tr (Sim.newOther e fid (newObj e.opts fid n [] 0) hsf hx rfl)
+      · rename_i req hl
+        simp only [hl] at hj
+        have hjl : j ≠ e.objs.length := by
+          refine J.ne_at hj (n := e.objs.length) (fid := fid) ?_ hx
+          split
+          · exact ⟨newObj e.opts fid n [] 0, by simp, rfl⟩
+          · refine ⟨{ newObj e.opts fid n [] 0 with rxOpen := false }, ?_, rfl⟩
+            simp [EP.modObj, setObj]
+        have g := gp.tr (Sim.newOther e fid (newObj e.opts fid n [] 0) hsf hx rfl hjl)
         split
         · exact g.tr (Sim.same rfl rfl rfl)
         · exact (g.tr (Sim.modObj _ e.objs.length (fun o => { o with rxOpen := false }) (by sim_side) (by sim_side))).tr
@@ -225,24 +365,88 @@ theorem Sim.processFrame {l : List WsIn} (e : EP) (f : Frame) (ig : Bool) (hsf :
       · exact gp.tr (Sim.enqFrame _ _ rfl rfl rfl)
       · exact gp.tr (Sim.enqFrame _ _ rfl rfl rfl)
   | finish fid =>
-    simp only [Mux.processFrame, acceptedInto]
-    have gp : Sim x j (.msg (.frame (.finish fid)) :: l) e l e [] [] :=
-      Sim.pop e _ (by intro m hm; cases hm; simp [isConn, isAck, isPush]) rfl
-    split
-    · exact gp.tr (Sim.enqFrame _ _ rfl rfl rfl)
-    · exact (gp.tr (Sim.erase e fid)).lbl rfl rfl
-    · rename_i req _
-      have g1 : Sim x j l e l { e with flows := Mux.erase e.flows fid, opens := e.opens.filter (·.req ≠ req) } [] [] :=
-        (Sim.erase e fid).congr rfl rfl
-      refine ((gp.tr g1).tr (Sim.enqFrame _ (.reset fid) rfl rfl rfl)).lbl ?_ rfl
-      split <;> rfl
-    · exact gp.tr (Sim.modObj _ _ _ (by sim_side) (by sim_side))
+    simp only [Mux.processFrame, acceptedInto, processFrameEnds]
+    by_cases hx : fid = x
+    · subst hx
+      have gfin : ∀ (s : Option Slot) (e' : EP),
+          ((∃ i, lookup e.flows fid = some (.established i) ∧ s = lookup e.flows fid) ∨
+            ((∀ i, lookup e.flows fid ≠ some (.established i)) ∧ s = none)) →
+          view fid j e' l = { view fid j e (.msg (.frame (.finish fid)) :: l) with inbox := l, slot := s, canJ := false } →
+          SimX fid j (.msg (.frame (.finish fid)) :: l) e l e' [] []
+            (if lookup e.flows fid = some (.established j) then [.fin] else []) := fun s e' hs hv =>
+        SimX.one (AStep.popFin (view fid j e (_ :: l)) l s rfl hs) hv rfl rfl rfl
+      cases hl : lookup e.flows fid with
+      | none =>
+        refine ((gfin none e (Or.inr ⟨(by intro i h; rw [hl] at h; cases h), rfl⟩) (by simp [view, canAcc, canAccF, hl])).trans
+          (Sim.enqFrame e (.reset fid) rfl rfl rfl).toX).lbl rfl rfl ?_
+        simp [closeFlowEnds, hl]
+      | some sl =>
+        cases sl with
+        | requested req =>
+          simp only
+          have hv : view fid j { e with flows := Mux.erase e.flows fid, opens := e.opens.filter (·.req ≠ req) } l =
+              { view fid j e (.msg (.frame (.finish fid)) :: l) with inbox := l, slot := none, canJ := false } := by
+            simp [view, canAcc, canAccF, lookup_erase_self, bindHeld]
+          refine ((gfin none _ (Or.inr ⟨(by intro i h; rw [hl] at h; cases h), rfl⟩) hv).trans
+            (Sim.enqFrame _ (.reset fid) rfl rfl rfl).toX).lbl ?_ rfl ?_
+          · split <;> rfl
+          · simp [closeFlowEnds, hl, slotEnds]
+        | bindRequested req =>
+          simp only
+          have hv : view fid j { e with flows := Mux.erase e.flows fid } l =
+              { view fid j e (.msg (.frame (.finish fid)) :: l) with inbox := l, slot := none, canJ := false } := by
+            simp [view, canAcc, canAccF, lookup_erase_self, bindHeld]
+          refine (gfin none _ (Or.inr ⟨(by intro i h; rw [hl] at h; cases h), rfl⟩) hv).lbl rfl rfl ?_
+          simp [closeFlowEnds, hl, slotEnds]
+        | established i =>
+          simp only
+          have hi : i < e.objs.length := hsf.lt fid i hl
+          have hv : view fid j (e.modObj i (fun o => { o with senderAlive := false })) l =
+              { view fid j e (.msg (.frame (.finish fid)) :: l) with inbox := l, slot := lookup e.flows fid, canJ := false } := by
+            have h1 : canAccF fid j e.flows (e.objs.modify i (fun o => { o with senderAlive := false })) = false := by
+              simp only [canAccF, hl, List.getElem?_modify]
+              by_cases hij : i = j
+              · subst hij; cases e.objs[i]? <;> simp
+              · simp [hij]
+            have h2 : rxOpenJ j (e.objs.modify i (fun o => { o with senderAlive := false })) = rxOpenJ j e.objs := by
+              simp only [rxOpenJ, List.getElem?_modify]
+              by_cases hij : i = j
+              · subst hij; cases e.objs[i]? <;> simp
+              · simp [hij]
+            simp [view, canAcc, h1, h2, EP.modObj, setObj, countP_modify_eq, bindHeld, hl]
+          refine (gfin _ _ (Or.inl ⟨i, hl, rfl⟩) hv).lbl rfl rfl ?_
+          simp only [closeFlowEnds, hl, slotEnds, hi, if_true, finsOf]
+          by_cases hij : i = j
+          · subst hij; simp
+          · have : ¬ (Slot.established i = Slot.established j) := by intro h; cases h; exact hij rfl
+            simp [hij, this]
+    · have hlab : finsOf x j (closeFlowEnds e fid (.peerFinish fid)) = [] :=
+        finsOf_closeFlowEnds_ne _ _ _ (by intro h; cases h; exact hx rfl)
+      refine (Sim.toX ?_).rec hlab
+      have gp : Sim x j (.msg (.frame (.finish fid)) :: l) e l e [] [] :=
+        Sim.pop e _ (by intro m hm; cases hm; simp [isConn, isAck, isPush, isFin, isBind, hx]) rfl
+      split
+      · exact gp.tr (Sim.enqFrame _ _ rfl rfl rfl (by simp [isFin]))
+      · exact (gp.tr (Sim.erase e fid)).lbl rfl rfl
+      · rename_i req _
+        have g1 : Sim x j l e l { e with flows := Mux.erase e.flows fid, opens := e.opens.filter (·.req ≠ req) } [] [] :=
+          (Sim.erase e fid).congr rfl rfl
+        refine ((gp.tr g1).tr (Sim.enqFrame _ (.reset fid) rfl rfl rfl)).lbl ?_ rfl
+        split <;> rfl
+      · rename_i i hl
+        refine gp.tr (Sim.modObjG _ _ _ (by sim_side)
+          (by intro o; exact ⟨(by intro h; cases h), fun h => h, fun h => h⟩) ?_)
+        intro _ hij
+        subst hij
+        exact absurd (hsf.noForeign hje fid hl) hx
   | reset fid =>
+    refine (Sim.toX ?_).rec (finsOf_closeFlowEnds_ne _ _ _ (by intro h; cases h))
     simp only [Mux.processFrame, acceptedInto]
     have gp : Sim x j (.msg (.frame (.reset fid)) :: l) e l e [] [] :=
-      Sim.pop e _ (by intro m hm; cases hm; simp [isConn, isAck, isPush]) rfl
-    exact gp.tr0 (Sim.closeFlow e fid true)
+      Sim.pop e _ (by intro m hm; cases hm; simp [isConn, isAck, isPush, isFin, isBind]) rfl
+    exact gp.tr0 (Sim.closeFlow e fid true hsf hje)
   | push fid d =>
+    refine (Sim.toX ?_).rec (by simp only [processFrameEnds]; split <;> first | rfl | exact finsOf_closeFlowEnds_ne _ _ _ (by intro h; cases h))
     simp only [Mux.processFrame, acceptedInto]
     by_cases hx : fid = x
     · subst hx
@@ -286,10 +490,10 @@ theorem Sim.processFrame {l : List WsIn} (e : EP) (f : Frame) (ig : Bool) (hsf :
                   -- the queue is full: the flow is closed
                   have g : Sim fid j (.msg (.frame (.push fid d)) :: l) e l { e with flows := Mux.erase e.flows fid } [] [] := by
                     refine Sim.one (AStep.pushRej (view fid j e (_ :: l)) d l none rfl (Or.inr rfl)) ?_ rfl rfl
-                    simp [view, canAcc, canAccF, lookup_erase_self]
+                    simp [view, canAcc, canAccF, lookup_erase_self, bindHeld]
                   unfold Mux.closeFlow
                   simp only [hl]
-                  exact g.tr0 (Sim.closeLocal _ _ _ _ _)
+                  exact g.tr0 (Sim.closeLocal _ _ _ _ _ (by intro hc; simp [canAcc, canAccF, lookup_erase_self] at hc))
               · simp only [Bool.not_eq_true] at h2
                 simp only [h1, h2, Bool.not_true, Bool.not_false, Bool.false_eq_true, if_false, if_true, Bool.and_false,
                   Bool.false_and]
@@ -306,7 +510,7 @@ theorem Sim.processFrame {l : List WsIn} (e : EP) (f : Frame) (ig : Bool) (hsf :
               · subst hij; simp [ho', h1]
               · simp [hij]
     · have gp : Sim x j (.msg (.frame (.push fid d)) :: l) e l e [] [] :=
-        Sim.pop e _ (by intro m hm; cases hm; simp [isConn, isAck, isPush, hx]) rfl
+        Sim.pop e _ (by intro m hm; cases hm; simp [isConn, isAck, isPush, isFin, isBind, hx]) rfl
       cases hl : lookup e.flows fid with
       | none => exact gp.tr (Sim.enqFrame _ _ rfl rfl (by simp [isPush]))
       | some s =>
@@ -330,7 +534,7 @@ theorem Sim.processFrame {l : List WsIn} (e : EP) (f : Frame) (ig : Bool) (hsf :
                     (by rw [Log.dataOf_single_ne _ _ _ hij]; rfl)
                 · simp only [h1, h2, h3, Bool.not_true, Bool.false_eq_true, if_false, Bool.and_false, decide_false,
                     Bool.and_true]
-                  exact gp.tr0 (Sim.closeFlow e fid false)
+                  exact gp.tr0 (Sim.closeFlow e fid false hsf hje)
               · simp only [Bool.not_eq_true] at h2
                 simp only [h1, h2, Bool.not_true, Bool.not_false, Bool.false_eq_true, if_false, if_true, Bool.and_false,
                   Bool.false_and]
@@ -339,15 +543,33 @@ theorem Sim.processFrame {l : List WsIn} (e : EP) (f : Frame) (ig : Bool) (hsf :
               simp only [h1, Bool.not_false, if_true, Bool.false_and, Bool.false_eq_true, if_false]
               exact gp.tr (Sim.enqFrame _ _ rfl rfl (by simp [isPush]))
   | bind fid bt port host =>
+    refine (Sim.toX ?_).rec rfl
     simp only [Mux.processFrame, acceptedInto]
-    have gp : Sim x j (.msg (.frame (.bind fid bt port host)) :: l) e l e [] [] :=
-      Sim.pop e _ (by intro m hm; cases hm; simp [isConn, isAck, isPush]) rfl
-    repeat' split
-    all_goals first | exact gp | exact gp.tr (Sim.enqFrame _ _ rfl rfl rfl) | exact gp.tr (Sim.offerBind _ _)
+    by_cases hx : fid = x
+    · subst hx
+      have gb : ∀ (b : Bool) (e' : EP), (bindHeld fid e = true → b = true) →
+          view fid j e' l = { view fid j e (.msg (.frame (.bind fid bt port host)) :: l) with inbox := l, bh := b } →
+          Sim fid j (.msg (.frame (.bind fid bt port host)) :: l) e l e' [] [] := fun b e' hb hv =>
+        Sim.one (AStep.popBind (view fid j e (_ :: l)) _ l b rfl (by simp [isBind]) hb) hv rfl rfl
+      have gsame := gb (bindHeld fid e) e (fun h => h) rfl
+      split
+      · exact gsame.tr (Sim.enqFrame _ _ rfl rfl rfl)
+      · split
+        · exact gsame
+        · split
+          · exact gsame.tr (Sim.enqFrame _ _ rfl rfl rfl)
+          · refine gb true _ (fun _ => rfl) ?_
+            unfold Mux.offerBind
+            split <;> simp [view, canAcc, bindHeld]
+    · have gp : Sim x j (.msg (.frame (.bind fid bt port host)) :: l) e l e [] [] :=
+        Sim.pop e _ (by intro m hm; cases hm; simp [isConn, isAck, isPush, isFin, isBind, hx]) rfl
+      repeat' split
+      all_goals first | exact gp | exact gp.tr (Sim.enqFrame _ _ rfl rfl rfl) | exact gp.tr (Sim.offerBind _ _ hx)
   | datagram fid port host d =>
+    refine (Sim.toX ?_).rec rfl
     simp only [Mux.processFrame, acceptedInto]
     have gp : Sim x j (.msg (.frame (.datagram fid port host d)) :: l) e l e [] [] :=
-      Sim.pop e _ (by intro m hm; cases hm; simp [isConn, isAck, isPush]) rfl
+      Sim.pop e _ (by intro m hm; cases hm; simp [isConn, isAck, isPush, isFin, isBind]) rfl
     repeat' split
     all_goals first | exact gp | exact gp.tr (Sim.same rfl rfl rfl)
 
